@@ -40,7 +40,8 @@ def register(prop, J):
          ],
          level_text="every decoder call runs under panic capture and a watchdog (30 s without progress = hang): the oracle is 'returns a "
                     "value or an error'; complete enumeration of short delimiter strings plus generated mutations of valid documents",
-         level_note="a mutated request may still be valid: then a 2xx with exactly one invocation is accepted; only 5xx, crashes, stack "
+         level_note="positive clauses (4xx for a malformed request, an error for a malformed response) are asserted where the message is malformed beyond doubt: a body that is structurally not one JSON object (tolerant scanner; lenient number spellings, duplicate keys and non-UTF-8 text are not judged). "
+                    "a mutated request may still be valid: then a 2xx with exactly one invocation is accepted; only 5xx, crashes, stack "
                     "traces and invocations behind a 4xx are violations",
          technique="exhaustive enumeration + mutation-based property testing (rapid) + native coverage-guided fuzzing (thorough tier) with a crash / hang oracle",
          design_ref="2/C04")
